@@ -16,12 +16,13 @@ B == INSTANCE Browser WITH IdSet <- IdSetC, MaxCommits <- MaxCommitsC, SegFiles 
 View == B!view
 Init == B!Init
 
-\* RemoveC = TRUE adds one storage-level removal of a file of the newest segment (the delete
-\* scenarios: cleanup_segments after a failed commit), at most once.
+\* RemoveC = TRUE adds one storage-level removal of the first file of segment 1 (what
+\* cleanup_segments does after a failed commit), at most once, at any moment after commit 1 was
+\* called: "delete racing a queued put".  Not reachable through the exported wasm API.
 RemoveOnce ==
   /\ RemoveC /\ app.k >= 1
   /\ \A i \in DOMAIN sched : sched[i].a # "remove"
-  /\ B!CallRemove(B!Seg(app.k, SegFilesC[1]))
+  /\ B!CallRemove(B!Seg(1, SegFilesC[1]))
 
 \* GenC = TRUE (case generation): the page is never closed inside a behaviour; instead every
 \* state is printed as "this schedule, then close" (TLC -simulate evaluates PrintCase on every
@@ -33,6 +34,10 @@ ReloadOpens == B!ReloadOpens
 ReloadIsSomeCommit == B!ReloadIsSomeCommit
 ResolvedCommitPresent == B!ResolvedCommitPresent
 NoSpuriousFailure == B!NoSpuriousFailure
+\* once everything has run, a removed file is not in IndexedDB any more
+RemovedStaysRemoved ==
+  (pg.runq = <<>> /\ pg.reqs = <<>> /\ \E i \in DOMAIN sched : sched[i].a = "remove")
+     => B!Seg(1, SegFilesC[1]) \notin DOMAIN idb
 TypeOK == B!TypeOK
 EventuallyAllPresent == B!EventuallyAllPresent
 NoStuck == B!NoStuck
